@@ -40,6 +40,7 @@ RULE = ("leader/follower Manager over task.Clock; intervals {0.5, 1, 30} s; peer
         "distinct = distinct canonical traces")
 
 TICK = 0.125
+MAX_OPS = 1500                 # operation lines per case
 INTERVALS = [4, 8, 240]        # 0.5 s, 1 s, 30 s
 
 
@@ -114,6 +115,8 @@ class World:
         self.abandons = []       # (cid, t) disconnect() from abandon_connection
         self.other_disc = []     # disconnect() from anywhere else
         self.discs = []          # every disconnect(), in call order
+        self.discd = set()       # connections that were asked to disconnect
+        self.reported = set()    # connections whose transport close has been reported to the Manager
         self.stop_called = False
         self.offgrid = False
 
@@ -134,6 +137,7 @@ class World:
     def on_disconnect(self, conn, caller):
         rec = (conn.cid, self.now())
         self.discs.append(rec)
+        self.discd.add(conn.cid)
         if caller == "_signal_reconnect":
             self.drops.append(rec)
         elif caller == "abandon_connection":
@@ -266,15 +270,17 @@ def _run(case, T, leader):
     seq = [0]
     seen_wire = [0]
     seen_disc = [0]
+    seen_reconnect = [0]
     expiries = [0]
     paused_expiry = [0]
+    late_expiry = [0]
 
     def record(opline, err, kind, data=None, legal_now=True):
         lines.append(opline)
         s = w.summary()
         exp.append((err + " " if err else "") + s)
         if err:
-            tags.append(("timer-raised:" if kind == "adv" else "raised:") + err)
+            tags.append(("timer-raised:" if kind in ("adv", "stall") else "raised:") + err)
             if legal_now and illegal[0] is None:
                 raised.append((opline, w.now(), err))
         w.scan_pings()
@@ -321,14 +327,23 @@ def _run(case, T, leader):
         c = w.m._connection
         return None if c is None else getattr(c, "cid", -1)
 
-    def do(o):
+    def do(o, closed=None):
+        """`closed`: for "lost", the connection whose transport really closed (the environment owes that report exactly
+        once per connection, whatever the Manager thinks it is using by then)"""
         w.scan_pings()
         before[0] = (conn_now(), len(w.ids))
-        if illegal[0] is None and not is_legal(o):
+        if o[0] == "lost":
+            if closed is None:
+                closed = conn_now()
+            if closed is not None:
+                w.reported.add(closed)
+        if illegal[0] is None and not is_legal(o) and not (o[0] == "lost" and closed is not None and closed in w.discd):
             illegal[0] = (" ".join(str(x) for x in o), "illegal")
             tags.append("illegal:" + o[0])
         legal_now = illegal[0] is None
         data = o[1] if len(o) > 1 else None
+        if o[0] == "lost":
+            data = dict(closed=closed, using=before[0][0])
         if o[0] == "pong":
             w.scan_pings()
             data = (o[1], o[1] < len(w.ids) and w.ids[o[1]] in w.m._pings_outstanding)
@@ -362,6 +377,21 @@ def _run(case, T, leader):
             record(f"adv {k}", err, "adv", dict(fired=fired), illegal[0] is None)
             n -= k
 
+    def stall(n):
+        """a reactor stall: the clock jumps n ticks in ONE step (Clock.advance), so a timer that falls due inside
+        runs late, with reactor.seconds() already at the late time; whatever arrived meanwhile is read afterwards"""
+        tb = [c.getTime() for c in w.timers()]
+        t0 = w.now()
+        w.scan_pings()
+        before[0] = (conn_now(), len(w.ids))
+        err = w.call(lambda: w.clock.advance(n * TICK))
+        fired = [t for t in tb if t <= w.clock.seconds() + 1e-9]
+        if fired:
+            expiries[0] += len(fired)
+            if any(t < w.clock.seconds() - 1e-9 for t in fired):
+                late_expiry[0] += 1
+        record(f"stall {n}", err, "stall", dict(fired=fired, frm=t0), illegal[0] is None)
+
     def schedule(t, o):
         seq[0] += 1
         pending.append([t, seq[0], o])
@@ -384,6 +414,8 @@ def _run(case, T, leader):
             due = t + rtt
             if silent is not None and due >= seg_start + silent:
                 continue
+            if policy.get("silent_until") is not None and due < seg_start + policy["silent_until"]:
+                continue
             schedule(due, ["pong", idx, cid])
         while seen_disc[0] < len(w.discs):
             cid, t = w.discs[seen_disc[0]]
@@ -391,15 +423,27 @@ def _run(case, T, leader):
             if policy is None or policy.get("loss_delay") is None:
                 continue
             schedule(t + policy["loss_delay"], ["lost", cid])
+        # the peer answers every `reconnect` it gets through the mailbox with `reconnecting` and a new connection
+        nrec = sum(1 for ph, pt in w.send.sent if b'"reconnect"' in pt)
+        while seen_reconnect[0] < nrec:
+            seen_reconnect[0] += 1
+            if policy is not None and policy.get("reconnect_delay") is not None and leader and not w.stop_called:
+                schedule(w.now() + policy["reconnect_delay"], ["remake"])
 
     def run_segment(duration, policy):
         seg_start = w.now()
         end = seg_start + duration
+        for a, n in (policy or {}).get("stalls") or []:
+            schedule(seg_start + a, ["stall", n])
         for a, d in (policy or {}).get("pauses") or []:
             schedule(seg_start + a, ["pause"])
             schedule(seg_start + a + d, ["resume"])
         react(policy, seg_start)
         while True:
+            if len(lines) > MAX_OPS:     # e.g. a zero-rtt ping storm in a changed tree: stop, judge what was seen
+                if "op-cap" not in tags:
+                    tags.append("op-cap")
+                return
             pending.sort()
             nxt = pending[0] if pending and pending[0][0] <= end else None
             stop_at = nxt[0] if nxt else end
@@ -427,12 +471,11 @@ def _run(case, T, leader):
                     continue     # travelled on a connection that is gone
                 do(["pong", o[1]])
             elif o[0] == "lost":
-                cur = w.m._connection
-                if cur is None or getattr(cur, "cid", None) != o[1]:
-                    continue
-                do(["lost"])
-                if leader and policy.get("reconnect_delay") is not None and not w.stop_called:
-                    schedule(w.now() + policy["reconnect_delay"], ["remake"])
+                if o[1] in w.reported:
+                    continue     # that transport's close has been reported already
+                do(["lost"], closed=o[1])
+            elif o[0] == "stall":
+                stall(o[1])
             elif o[0] in ("pause", "resume"):
                 if w.m._connection is None:
                     continue     # the transport that would call this is gone
@@ -449,12 +492,16 @@ def _run(case, T, leader):
             run_segment(seg[1], seg[2])
         elif k == "adv":
             adv(seg[1])
+        elif k == "stall":
+            stall(seg[1])
         elif k == "lost":
             do(["lost"])
             pending[:] = [p for p in pending if p[2][0] not in ("pong", "lost", "pause", "resume")]
         else:
             do(seg)
         react(None, w.now())
+        if len(lines) > MAX_OPS:
+            break
 
     if w.offgrid:
         tags.append("offgrid")
@@ -474,6 +521,10 @@ def _run(case, T, leader):
         tags.append("flow-control")
     if paused_expiry[0]:
         tags.append("paused-at-expiry")
+    if any(e[0] == "stall" for e in events):
+        tags.append("stall")
+    if late_expiry[0]:
+        tags.append("late-expiry")
     viol = oracle(w, events, T, leader, illegal[0], tags)
     for idx, t, cid, opline in unwritten[:1]:
         viol.append(("ping-not-written",
@@ -523,7 +574,15 @@ def oracle(w, events, T, leader, illegal, tags):
                 add("monitor-not-restarted", f"connection made at tick {t}: no timer for {want} s (pending {pend})")
             if snap["npings"] != prev_npings + 1:
                 add("monitor-not-restarted", f"connection made at tick {t}: {snap['npings'] - prev_npings} pings registered, expected 1")
-        if kind == "lost" and leader and not snap["stop"] and snap["state"] != "FLUSHING":
+        if kind == "lost" and data and data["closed"] is not None and data["using"] is not None \
+                and data["closed"] != data["using"] and snap["conn"] != data["using"]:
+            add("replaced-without-loss",
+                f"T={T} ticks: at tick {t} the transport of the OLD connection {data['closed']} reported its close while connection "
+                f"{data['using']} was in use; the Manager stopped using connection {data['using']} (state {snap['state']}), "
+                f"whose transport is open and whose peer may be answering every ping")
+        if kind == "lost" and data and data["closed"] != data["using"]:
+            pass      # a late report of an old connection is not the loss of the one in use
+        elif kind == "lost" and leader and not snap["stop"] and snap["state"] != "FLUSHING":
             add("no-new-generation", f"connection lost at tick {t}: Manager is {snap['state']}, not FLUSHING (no RECONNECT sent)")
         prev_npings = snap["npings"]
     if not leader:
@@ -564,6 +623,15 @@ def oracle(w, events, T, leader, illegal, tags):
                     f"had been answered (wire={[(i, s) for c, i, s in w.wire if c == cid][-4:]}, answered={ {i: a for i, a in answered.items()} })")
         # (2) replaces a silent one: after the last pong (or the start) the drop comes no later than
         #     two intervals after the most recent ping sent by then
+        #     — each interval counted from when the previous expiry was really handled: an expiry that falls
+        #     inside a reactor stall (t0, t1] is handled at t1
+        stalls = [(data["frm"], t) for kind, t, data, err, snap in legal if kind == "stall"]
+
+        def handled(x):
+            for t0, t1 in stalls:
+                if t0 < x <= t1:
+                    return t1
+            return x
         marks = [ep["start"]] + [t for t, _ in ep["pongs"]]
         first_drop = min(drops) if drops else None
         for i, a in enumerate(marks):
@@ -572,13 +640,13 @@ def oracle(w, events, T, leader, illegal, tags):
                 break
             sent = [s for s in w.sent_at if ep["start"] <= s <= a]
             lp = max(sent) if sent else ep["start"]
-            deadline = lp + 2 * T
+            deadline = handled(handled(lp + T) + T)
             if nxt >= deadline and (first_drop is None or first_drop > deadline):
                 # the connection was still in use and nothing arrived until `deadline` (an event at the
                 # very tick of the deadline comes after the timers of that tick)
                 add("silent-not-dropped",
                     f"T={T} ticks: connection {cid} silent since tick {a} (last ping sent at tick {lp}); "
-                    f"not dropped by tick {deadline} = last ping + 2T (first drop: {first_drop}, watched until tick {nxt}, "
+                    f"not dropped by tick {deadline} = second expiry after it (first drop: {first_drop}, watched until tick {nxt}, "
                     f"pending timers {[x / TICK for x in (c.getTime() for c in w.timers())]} ticks)")
                 break
     if w.other_disc:
@@ -592,10 +660,14 @@ def oracle(w, events, T, leader, illegal, tags):
 SETUP = [["start"], ["please"], ["made"]]
 
 
-def pol(rtt=0, drop_every=0, silent_from=None, loss_delay=None, reconnect_delay=None, rtts=None, pauses=None):
+def pol(rtt=0, drop_every=0, silent_from=None, loss_delay=None, reconnect_delay=None, rtts=None, pauses=None, stalls=None, silent_until=None):
     p = dict(rtt=rtt, drop_every=drop_every, silent_from=silent_from, loss_delay=loss_delay, reconnect_delay=reconnect_delay)
     if rtts is not None:
         p["rtts"] = rtts
+    if silent_until is not None:
+        p["silent_until"] = silent_until   # nothing is answered before this tick of the segment
+    if stalls is not None:
+        p["stalls"] = stalls      # [[start, length]] ticks from the start of the segment: the reactor is stalled (coarse clock step)
     if pauses is not None:
         p["pauses"] = pauses      # [[start, length]] ticks from the start of the segment: transport flow control
     return p
@@ -629,6 +701,25 @@ def corpus():
         # a sliver in mid-interval; the peer answers every ping it receives
         for a, d in ((T - 1, 2), (T - 1, 1), (T, 1), (2 * T - 1, T + 2), (T + 1, 1), (1, 4 * T)):
             out.append(dict(T=T, leader=True, script=SETUP + [["run", 6 * T, pol(rtt=1, pauses=[[a, d]])]]))
+        # reactor stalls: an expiry handled late by d (d = 1, < T, = T, > T, several intervals), the peer answers every
+        # ping it receives within the interval (rtt 1 and T-1), stalls landing exactly on a deadline, two stalls in a row,
+        # a stall that also swallows the answer, a stall during silence, a stall while paused
+        for rtt in (1, T - 1):
+            for a, n in ((T - 1, 2), (T - 2, T), (T - 1, T + 1), (1, 3 * T), (T - 2, 2), (2 * T - 1, T + 2)):
+                out.append(dict(T=T, leader=True, script=SETUP + [["run", 7 * T, pol(rtt=rtt, stalls=[[a, n]])]]))
+            out.append(dict(T=T, leader=True, script=SETUP + [["run", 8 * T, pol(rtt=rtt, stalls=[[T - 1, 2], [2 * T, 2], [3 * T + 2, T]])]]))
+        out.append(dict(T=T, leader=True, script=SETUP + [["run", 9 * T, pol(rtt=1, silent_from=2 * T, stalls=[[2 * T + 1, T + 1]],
+                                                                          loss_delay=1, reconnect_delay=1)]]))
+        out.append(dict(T=T, leader=True, script=SETUP + [["run", 6 * T, pol(rtt=1, stalls=[[T - 1, 3]], pauses=[[T - 2, T]])]]))
+        out.append(dict(T=T, leader=True, script=SETUP + [["stall", T], ["stall", 0], ["stall", 2 * T], ["lost"], ["stall", 3 * T],
+                                                           ["reconnecting"], ["made"], ["stall", T - 1], ["stall", 1], ["stop"],
+                                                           ["stall", 2 * T]]))
+        out.append(dict(T=T, leader=False, script=SETUP + [["stall", 3 * T], ["adv", 1]]))
+        # slow close: the silent connection's transport reports its close long after disconnect() — before, at and after
+        # the moment the peer's next connection would be up; the next connection answers every ping
+        for ld, rd in ((T, 1), (2 * T + 1, 0), (3 * T, T), (1, 1), (T, T)):
+            out.append(dict(T=T, leader=True, script=SETUP + [["run", 9 * T, pol(rtt=1, silent_until=2 * T + 1, loss_delay=ld,
+                                                                                  reconnect_delay=rd)]]))
         # paused when the peer goes silent, paused across a monitor drop + loss + reconnect, paused at stop
         out.append(dict(T=T, leader=True, script=SETUP + [["run", 9 * T, pol(rtt=1, silent_from=3 * T, pauses=[[2 * T - 1, 5 * T]],
                                                                           loss_delay=1, reconnect_delay=1)]]))
@@ -663,11 +754,16 @@ def rand_policy(rng, T):
         p["drop_every"] = rng.choice([2, 3, 4])
     if rng.random() < 0.6:
         p["silent_from"] = rng.randrange(0, 6 * T + 1)
+    elif rng.random() < 0.4:
+        p["silent_until"] = rng.choice([T, 2 * T + 1, 3 * T])
+    if rng.random() < 0.35:
+        p["stalls"] = [[rng.choice([0, 1, T - 2, T - 1, T, T + 1, 2 * T - 1, rng.randrange(0, 5 * T)]),
+                        rng.choice([1, 2, T - 1, T, T + 1, 2 * T, 3 * T + 1])] for _ in range(rng.randrange(1, 4))]
     if rng.random() < 0.35:
         p["pauses"] = [[rng.choice([0, 1, T - 1, T, T + 1, 2 * T - 1, 2 * T, rng.randrange(0, 5 * T)]),
                         rng.choice([1, 2, T - 1, T, T + 1, 3 * T])] for _ in range(rng.randrange(1, 3))]
     if rng.random() < 0.7:
-        p["loss_delay"] = rng.choice([0, 1, T - 1, T, 2 * T + 1])
+        p["loss_delay"] = rng.choice([0, 1, T - 1, T, 2 * T + 1, 4 * T])
         if rng.random() < 0.8:
             p["reconnect_delay"] = rng.choice([0, 1, T, 3 * T])
     return p
@@ -692,6 +788,8 @@ def rand_case(rng, adversarial=False):
                 script += [["lost"], ["adv", rng.randrange(0, 3 * T)]]
         elif r < 0.86:
             script += [[rng.choice(["pause", "resume"])], ["adv", rng.choice([1, T - 1, T, T + 1])], [rng.choice(["pause", "resume"])]]
+        elif r < 0.88:
+            script.append(["stall", rng.choice([0, 1, T - 1, T, T + 1, 2 * T + 1])])
         elif r < 0.9:
             script.append(["pong", rng.randrange(0, 6)])
         else:
@@ -710,6 +808,16 @@ def exhaustive(T=4):
     for rtt in range(0, 2 * T + 2):
         for silent in range(0, 3 * T + 1, 1):
             out.append(dict(T=T, leader=True, script=SETUP + [["run", 6 * T + 2, pol(rtt=rtt, silent_from=silent)]]))
+    # every reactor stall (a, a+n] around the first two expiries, peer answering after 1 and after T-1 ticks
+    for rtt in (1, T - 1):
+        for a in range(0, 2 * T + 1):
+            for n in range(1, 2 * T + 2):
+                out.append(dict(T=T, leader=True, script=SETUP + [["run", 6 * T, pol(rtt=rtt, stalls=[[a, n]])]]))
+    # every (close delay, reconnect delay) of a dropped silent connection, next connection responsive
+    for ld in range(0, 3 * T + 1):
+        for rd in (0, 1, T - 1, T, 2 * T):
+            out.append(dict(T=T, leader=True, script=SETUP + [["run", 8 * T, pol(rtt=1, silent_until=2 * T + 1, loss_delay=ld,
+                                                                                  reconnect_delay=rd)]]))
     # every pause window [a, a+d) over the first two expiries, responsive peer
     for a in range(0, 2 * T + 2):
         for d in range(1, T + 3):
@@ -759,7 +867,7 @@ def shrink(case):
                 for d in (seg[1] // 2, seg[1] - 1):
                     yield dict(case, script=sc[:i] + [["run", d, seg[2]]] + sc[i + 1:])
             p = seg[2]
-            for key, val in (("drop_every", 0), ("rtts", None), ("loss_delay", None), ("reconnect_delay", None), ("pauses", None)):
+            for key, val in (("drop_every", 0), ("rtts", None), ("loss_delay", None), ("reconnect_delay", None), ("pauses", None), ("stalls", None)):
                 if p.get(key):
                     q = dict(p)
                     q[key] = val
